@@ -2,7 +2,7 @@
 EXTENDS XrlEquiv, XrlChunks
 BadOf(i, ev) == IF ev.k = "jrow" THEN { [prop |-> "C19", line |-> i, fn |-> ev.fn, Z |-> ev.Z, a |-> ev.diff[k].a, d |-> [m \in 1..3 |-> FStr(ev.diff[k].d[m])], s |-> ev.diff[k].s,
                                          why |-> Why(ev.fn, ev.diff[k].c, ev.diff[k].j), c |-> ev.diff[k].c, j |-> ev.diff[k].j, exc |-> ev.diff[k].exc] :
-                                        k \in { k \in 1..Len(ev.diff) : ~SameNear(ev.fn, ev.diff[k].c, ev.diff[k].j, ev.diff[k].sc, ev.diff[k].alt) } }
+                                        k \in { k \in 1..Len(ev.diff) : ~SameNear(ev.fn, ev.diff[k].c, ev.diff[k].j, ev.diff[k].sc, ev.diff[k].alt) \/ ~EdgeExact(ev.diff[k]) } }
                 ELSE {}
 Judged == JudgedWith(BadOf)
 ============================================================================
